@@ -22,6 +22,7 @@ type histOpts struct {
 	futureSingle  bool // single updates may be in the future / too old (rejected)
 	maxBatch      int
 	noReopen      bool
+	futureBatch   bool // batches may carry points stamped shortly AFTER the clock (a sender whose clock runs ahead)
 }
 
 // inRangeTime picks t with now-ret < t <= now, biased to the edges.
@@ -119,6 +120,22 @@ func genOp(r *rand.Rand, l model.Layout, now int64, o histOpts) Op {
 				t = inRangeTime(r, now, retT)
 			}
 			pts = append(pts, model.PtBits{T: uint32(t), Bits: genValueBits(r, o.hostileValues)})
+		}
+		if o.futureBatch && r.Intn(3) == 0 {
+			// points ahead of the caller's clock, consecutive, sometimes continuing a dense run that ends at the clock
+			ahead := minI64(4, 2*l.MaxStep()-1)
+			if r.Intn(2) == 0 {
+				for t := now - minI64(retT-1, int64(a.Points)+2); t <= now; t++ {
+					if t > now-retT && a.Step == 1 {
+						pts = append(pts, model.PtBits{T: uint32(t), Bits: genValueBits(r, o.hostileValues)})
+					}
+				}
+			}
+			for j := int64(1); j <= ahead; j++ {
+				if r.Intn(4) != 0 {
+					pts = append(pts, model.PtBits{T: uint32(now + j), Bits: genValueBits(r, o.hostileValues)})
+				}
+			}
 		}
 		// lap collision inside the N+1-interval window: t and t+N*S both in (now-ret, now]
 		if arch >= 0 && r.Intn(3) == 0 {
